@@ -54,6 +54,37 @@ func (h *hist) reset() {
 	h.log = nil
 }
 
+// net switches the network. Scan results recorded under the other state stay.
+func (h *hist) net(down bool) {
+	h.s.Net(down)
+	h.log = append(h.log, fmt.Sprintf("net down=%v", down))
+}
+
+// newFaulty runs libindex.New with something wrong; it must fail, return no
+// Libindex, and leave the deployment as it was.
+func (h *hist) newFaulty(nf ctrl.NewFaults, cfg ctrl.Config) {
+	libBefore, ntok := h.s.W.Lib, len(h.s.W.Tokens)
+	out := h.s.New(nf, cfg)
+	h.log = append(h.log, ctrl.NewOp(nf, cfg))
+	wit := fmt.Sprintf("history [%s] => %s", h.where(), out)
+	h.r.Case("new "+wit, true)
+	necos := 0
+	for _, s := range cfg {
+		necos = max(necos, s.Eco+1)
+	}
+	mustFail := nf.NoLocker || nf.NoStore || nf.NoArena || nf.NoClient || nf.RegisterFails || (nf.CtorFailAt >= 0 && nf.CtorFailAt < 6*necos)
+	switch {
+	case mustFail && !strings.HasPrefix(out, "err "):
+		h.r.Fail("", "libindex.New did not report the failure of its arguments / environment: "+wit)
+	case mustFail && (h.s.W.Lib != libBefore || len(h.s.W.Tokens) != ntok):
+		h.r.Fail("", "harness: a failed New replaced the deployment: "+wit)
+	case !mustFail && !strings.HasPrefix(out, "tok "):
+		h.r.Fail("", "libindex.New failed although nothing was wrong: "+wit)
+	case !mustFail:
+		h.cfgs = append(h.cfgs, cfg)
+	}
+}
+
 func (h *hist) where() string { return strings.Join(h.log, "; ") }
 
 // config reconfigures and checks the token statement against every earlier
@@ -156,10 +187,34 @@ func (h *hist) index(m []int, script ctrl.Script) {
 		}
 	}
 	for _, b := range h.s.CheckStore() {
-		h.r.Fail("", b+": "+wit)
+		h.r.Fail(b.Class, b.Msg+": "+wit)
 	}
 	if len(script) > 0 {
 		h.r.Count("op.index-faulty")
+		return
+	}
+	// did a scanner that needs the network scan a layer of this manifest under
+	// another state of the network than the present one? (the last scan of a
+	// pair is the one whose results are stored)
+	last := map[string]bool{}
+	for _, ev := range h.s.W.Scans {
+		last[fmt.Sprintf("%d|%v", ev.Layer, ev.Scanner)] = ev.Down
+	}
+	taint := false
+	for _, k := range keys {
+		sp, ok := ctrl.SpecOf(cfg, k)
+		if !ok || !sp.Has('N') {
+			continue
+		}
+		for _, l := range m {
+			if d, seen := last[fmt.Sprintf("%d|%v", l, k)]; seen && d != h.s.W.NetDown {
+				taint = true
+			}
+		}
+	}
+	if taint {
+		// by design (result.Do swallows *net.AddrError): no comparison with a cold run; the model still has to agree
+		h.r.Count("op.index-after-addr-error(by design: no cold comparison)")
 		return
 	}
 	// fault-free call: compare with the cold run
@@ -258,7 +313,7 @@ func (h *hist) delete(ms [][]int) {
 		}
 	}
 	for _, b := range h.s.CheckStore() {
-		h.r.Fail("", b+": "+wit)
+		h.r.Fail(b.Class, b.Msg+": "+wit)
 	}
 }
 
@@ -272,7 +327,7 @@ func bucket(n int) int {
 }
 
 // mutate derives the next configuration of a history.
-func mutate(rnd *hx.Rand, cur ctrl.Config, earlier []ctrl.Config) (ctrl.Config, string) {
+func mutate(rnd *hx.Rand, salt uint64, cur ctrl.Config, earlier []ctrl.Config) (ctrl.Config, string) {
 	cp := append(ctrl.Config(nil), cur...)
 	switch rnd.Intn(6) {
 	case 0: // permute: same set, other order
@@ -282,17 +337,31 @@ func mutate(rnd *hx.Rand, cur ctrl.Config, earlier []ctrl.Config) (ctrl.Config, 
 		}
 		// keep ecosystem numbering dense and ecosystem 0 present
 		return cp, "permute"
-	case 1: // bump a version
+	case 1: // bump a version (in every ecosystem that lists the scanner)
 		if len(cp) > 0 {
 			i := rnd.Intn(len(cp))
-			cp[i].Version = cp[i].Version + "x"
+			k, n := cp[i].Kind, cp[i].Name
+			for j := range cp {
+				if cp[j].Kind == k && cp[j].Name == n {
+					cp[j].Version = cp[j].Version + "x"
+					cp[j].Flags = c07.GenFlags(salt, k, n, cp[j].Version)
+				}
+			}
 			return cp, "bump"
 		}
-	case 2: // remove a scanner
+	case 2: // remove a scanner (from every ecosystem that lists it)
 		if len(cp) > 1 {
 			i := rnd.Intn(len(cp))
-			cp = append(cp[:i], cp[i+1:]...)
-			return normalize(cp), "remove"
+			k, n := cp[i].Kind, cp[i].Name
+			var out ctrl.Config
+			for _, t := range cp {
+				if !(t.Kind == k && t.Name == n) {
+					out = append(out, t)
+				}
+			}
+			if len(out) > 0 {
+				return normalize(out), "remove"
+			}
 		}
 	case 3: // roll back to an earlier configuration
 		if len(earlier) > 0 {
@@ -302,6 +371,7 @@ func mutate(rnd *hx.Rand, cur ctrl.Config, earlier []ctrl.Config) (ctrl.Config, 
 		if len(cp) > 0 && len(cp) < 5 {
 			s := cp[rnd.Intn(len(cp))]
 			s.Kind = "pdr"[rnd.Intn(3)]
+			s.Flags = c07.GenFlags(salt, s.Kind, s.Name, s.Version)
 			for _, t := range cp {
 				if t.Kind == s.Kind && t.Name == s.Name {
 					return cp, "same"
@@ -312,7 +382,7 @@ func mutate(rnd *hx.Rand, cur ctrl.Config, earlier []ctrl.Config) (ctrl.Config, 
 	}
 	// add a scanner
 	for tries := 0; tries < 20 && len(cp) < 5; tries++ {
-		s := c07.GenConfig(rnd)[0]
+		s := c07.GenConfig(rnd, salt)[0]
 		s.Eco = 0
 		dup := false
 		for _, t := range cp {
@@ -325,6 +395,15 @@ func mutate(rnd *hx.Rand, cur ctrl.Config, earlier []ctrl.Config) (ctrl.Config, 
 		}
 	}
 	return cp, "same"
+}
+
+func hasN(cfg ctrl.Config) bool {
+	for _, s := range cfg {
+		if s.Has('N') {
+			return true
+		}
+	}
+	return false
 }
 
 func normalize(cfg ctrl.Config) ctrl.Config {
@@ -370,6 +449,42 @@ func (h *hist) known() {
 	}
 }
 
+// knownMore replays the witness of finding unconfigured-scanner-marked and the
+// by-design exception (result.Do accepts a scanner's *net.AddrError).
+func (h *hist) knownMore() {
+	ax := ctrl.Config{{Eco: 0, Kind: 'p', Name: "a", Version: "1", Flags: "CX"}, {Eco: 0, Kind: 'd', Name: "b", Version: "1"}}
+	h.reset()
+	h.s.Config(ax)
+	h.s.Index([]int{1, 2}, ctrl.Script{}, false)
+	res := h.s.Index([]int{1, 3}, ctrl.Script{}, false)
+	for _, b := range h.s.CheckStore() {
+		if b.Class == ctrl.FindingUnconfigured {
+			refetched := false
+			for _, l := range h.s.W.Fetches[len(h.s.W.Fetches)-res.NFetch:] {
+				if l == 1 {
+					refetched = true
+				}
+			}
+			h.r.KnownSeen(ctrl.FindingUnconfigured, fmt.Sprintf("config %s (a's Configure fails); index 1.2; index 1.3 => %s ; layer 1 fetched again: %v ; %s", ax, res.Line(), refetched, b.Msg))
+			break
+		}
+	}
+	// by design: a scanner that cannot reach the network is forgiven, the layer is recorded as scanned with what it returned
+	n := ctrl.Config{{Eco: 0, Kind: 'p', Name: "ab", Version: "1", Flags: "N"}}
+	h.reset()
+	h.s.Net(true)
+	h.s.Config(n)
+	down := h.s.Index([]int{1, 4}, ctrl.Script{}, false)
+	h.s.Net(false)
+	up := h.s.Index([]int{1, 4}, ctrl.Script{}, false)
+	cold := h.s.Cold(n, []int{1, 4})
+	if down.ErrClass == "nil" && down.Success && up.Trace == "MGR" && up.Body != cold.Body {
+		h.r.Count("by-design.addr-error: report after the network came back differs from a cold run")
+	} else {
+		h.r.Fail("", fmt.Sprintf("the by-design exception does not reproduce: scanner ab needs the network; index 1.4 with the network down => %s ; network up, index 1.4 => %s ; cold => %s", down.Line(), up.Line(), cold.Line()))
+	}
+}
+
 // Run is the entry point of the C08 harness.
 func Run(cfg hx.Config) error {
 	r, err := hx.NewRun(cfg)
@@ -377,15 +492,17 @@ func Run(cfg hx.Config) error {
 		return err
 	}
 	defer r.Close()
-	r.Rule = "each case = one libindex.New (config) or Libindex.Index call of a history on the real code over the in-memory store: 5..40 calls over a family of 3..5 manifests drawn from 6 layers (shared and repeated layers), one call in 7 carries a random fault, one in 8 changes the scanner set (add, remove, version bump, same name under another kind, permutation, rollback), one in 8 is a Libindex.DeleteManifests of one or two manifests of the family (or an unknown one); every fault-free Index is compared with a cold run of the same manifest under the current configuration on a fresh store; non-trivial = Index on a store that already went through at least two operations"
+	r.Rule = "each case = one libindex.New (config) or Libindex.Index call of a history on the real code over the in-memory store: 5..40 calls over a family of 3..5 manifests drawn from 6 layers (shared and repeated layers), one call in 7 carries a random fault, one in 10 changes the scanner set (add, remove, version bump, same name under another kind, permutation, rollback; scanners may be listed by two ecosystems, may implement ConfigurableScanner / RPCScanner, may fail to configure, may need the network), one in 10 is a Libindex.DeleteManifests of one or two manifests of the family (or an unknown one), one in 10 a libindex.New with a nil argument / failing RegisterScanners / failing scanner constructor, one in 10 switches the network of network-dependent scanners; every fault-free Index is compared with a cold run of the same manifest under the current configuration on a fresh store; non-trivial = Index on a store that already went through at least two operations"
 	rnd := hx.NewRand(cfg.Seed)
 	h := &hist{r: r, s: ctrl.NewSession(r)}
 	h.known()
+	h.knownMore()
 
 	nHist := cfg.N(1200, 8000)
 	for i := 0; i < nHist && !r.Stop() && !h.s.Lost; i++ {
 		h.reset()
-		cur := c07.GenConfig(rnd)
+		salt := rnd.U64()
+		cur := c07.GenConfig(rnd, salt)
 		h.config(cur)
 		nman := 3 + rnd.Intn(3)
 		family := make([][]int, nman)
@@ -395,7 +512,35 @@ func Run(cfg hx.Config) error {
 		nops := 5 + rnd.Intn(36)
 		r.Count(fmt.Sprintf("history.ops<=%d", (nops+9)/10*10))
 		for j := 0; j < nops && !r.Stop() && !h.s.Lost; j++ {
-			switch x := rnd.Intn(8); {
+			switch x := rnd.Intn(10); {
+			case x == 8:
+				// libindex.New with something wrong: the deployment must stay as it is
+				nf := ctrl.NewFaults{CtorFailAt: -1}
+				switch rnd.Intn(7) {
+				case 0:
+					nf.NoLocker = true
+				case 1:
+					nf.NoStore = true
+				case 2:
+					nf.NoArena = true
+				case 3:
+					nf.NoClient = true
+				case 4:
+					nf.RegisterFails = true
+				default:
+					nf.CtorFailAt = rnd.Intn(14)
+				}
+				next, _ := mutate(rnd, salt, cur, h.cfgs)
+				h.newFaulty(nf, next)
+				if nf.CtorFailAt >= 0 && h.s.W.Lib != nil && h.s.W.Cfg.String() == next.String() {
+					cur = next // the failing constructor call was never reached: New went through
+				}
+			case x == 9:
+				if hasN(cur) {
+					h.net(!h.s.W.NetDown)
+				} else {
+					h.index(family[rnd.Intn(nman)], ctrl.Script{})
+				}
 			case x == 7:
 				// delete one or two manifests of the family, sometimes one that was never indexed, sometimes one twice
 				var ms [][]int
@@ -407,7 +552,7 @@ func Run(cfg hx.Config) error {
 				}
 				h.delete(ms)
 			case x == 0:
-				next, how := mutate(rnd, cur, h.cfgs)
+				next, how := mutate(rnd, salt, cur, h.cfgs)
 				r.Count("config." + how)
 				cur = next
 				h.config(cur)
